@@ -8,7 +8,7 @@ namespace C03L
 open Gen.Addr
 open X86 (leNat)
 
-abbrev Bytes := List (BitVec 8)
+abbrev Bytes := Reloc.Bytes
 
 /-- the signed displacement the CPU reads from a little-endian field (ISA reading, not goom's) -/
 def sdisp (fld : Bytes) : Int :=
@@ -185,5 +185,140 @@ theorem enc1_widen (op b : BitVec 8) (val add : BitVec 64) (near : Bytes)
   · refine ⟨LittleEndian_PutInt32 [0#8, 0#8, 0#8, 0#8] (_ - 3#32 - 0#32), by simp [EncodeAddress, hov, hx, toInst]; rfl, put32_length _ _ _ _ _, ?_⟩
     rw [sdisp_of_toNat32 _ _ (put32_length _ _ _ _ _) (leNat_put32 _ _ _ _ _), sub3k _ _ _ _ hsum t0 (by omega) (by omega) (by omega) (by omega)]
     simp only [List.length_cons, List.length_nil]; omega
+
+theorem enc1_none (pre : Bytes) (b : BitVec 8) (val add : BitVec 64)
+    (hv1 : -128 ≤ val.toInt) (hv2 : val.toInt < 128) (ha1 : -2^31 + 2^16 ≤ add.toInt) (ha2 : add.toInt < 2^31 - 2^16)
+    (hs : val.toInt + add.toInt < -128 ∨ 127 < val.toInt + add.toInt)
+    (hx : opExpand (BitVec.setWidth 32 (pre.getD 0 0#8)) = none) :
+    EncodeAddress pre [b] (BitVec.ofNat 64 1) val add = .error "panic" := by
+  obtain ⟨e32, _⟩ := sx8_toInt val hv1 hv2
+  have hsum : ((BitVec.signExtend 32 (BitVec.setWidth 8 val)) + (BitVec.setWidth 32 add)).toInt = val.toInt + add.toInt := by
+    rw [BitVec.toInt_add, e32, sw32_toInt add (by omega) (by omega), Int.bmod_def]; split <;> omega
+  have hov : isByteOverflow ((BitVec.signExtend 32 (BitVec.setWidth 8 val)) + (BitVec.setWidth 32 add)) = true := by
+    rw [isByteOverflow_spec]; omega
+  have hx' : opExpand (BitVec.setWidth 32 (pre[0]?.getD 0#8)) = none := by simpa using hx
+  simp [EncodeAddress, hov, hx']
+
+open Reloc
+
+theorem len1 (l : Bytes) (h : l.length = 1) : ∃ a, l = [a] := by
+  match l, h with
+  | [a], _ => exact ⟨a, rfl⟩
+
+theorem len4 (l : Bytes) (h : l.length = 4) : ∃ a b c d, l = [a,b,c,d] := by
+  match l, h with
+  | [a,b,c,d], _ => exact ⟨a, b, c, d, rfl⟩
+
+/-- **Decoder contract** (what property C16 establishes about goom's decoder, restricted to what relocation reads). -/
+structure WF (i : Ins) : Prop where
+  len_eq : i.bytes.length = i.len
+  len_pos : 0 < i.len
+  opnz : i.opZero = false                      -- not the all-zero encoding `00 00` (which fixBlock would skip)
+  field_in : i.pcrelOff ≠ 0 → i.pcrelOff + i.pcrel ≤ i.len
+  width : i.pcrelOff ≠ 0 → i.pcrel = 1 ∨ i.pcrel = 4
+  sign : i.pcrelOff ≠ 0 → i.backward = true → sdisp i.field ≤ 0
+  short : i.pcrelOff ≠ 0 → i.pcrel = 1 → opExpand (BitVec.setWidth 32 (i.pre.getD 0 0#8)) ≠ none → i.pcrelOff = 1
+
+theorem field_length (i : Ins) (hw : WF i) (hp : i.pcrelOff ≠ 0) : i.field.length = i.pcrel := by
+  have := hw.field_in hp; have := hw.len_eq
+  simp only [Ins.field, List.length_take, List.length_drop]; omega
+
+theorem pre_length (i : Ins) (hw : WF i) (hp : i.pcrelOff ≠ 0) : i.pre.length = i.pcrelOff := by
+  have := hw.field_in hp; have := hw.len_eq
+  simp only [Ins.pre, List.length_take]; omega
+
+theorem bytes_split (i : Ins) : i.bytes = i.pre ++ i.field ++ i.tail := by
+  simp only [Ins.pre, Ins.field, Ins.tail]
+  rw [← List.drop_drop, List.append_assoc, List.take_append_drop, List.take_append_drop]
+
+theorem tail_length (i : Ins) (hw : WF i) (hp : i.pcrelOff ≠ 0) : i.tail.length + i.pcrelOff + i.pcrel = i.len := by
+  have := hw.field_in hp; have := hw.len_eq
+  simp only [Ins.tail, List.length_drop]; omega
+
+/-- under the contract goom's `DecodeRelativeAddr` is the ISA reading of the field -/
+theorem decodeRel_wf (i : Ins) (hw : WF i) (hp : i.pcrelOff ≠ 0) : decodeRel i = .ok (sdisp i.field) := by
+  have hl := field_length i hw hp
+  have hs := hw.sign hp
+  unfold decodeRel
+  rcases hw.width hp with h1 | h4
+  · rw [h1] at hl ⊢
+    obtain ⟨a, hf⟩ := len1 _ hl
+    simp only [hf] at hs ⊢
+    · obtain ⟨v, hv, hvi⟩ := decode1 a
+      rw [hv]; dsimp only
+      rw [hvi]; congr 1
+      split
+      · rename_i hc
+        simp only [Bool.and_eq_true, decide_eq_true_eq] at hc
+        have := hs hc.1; omega
+      · rfl
+  · rw [h4] at hl ⊢
+    obtain ⟨a, b, c, d, hf⟩ := len4 _ hl
+    simp only [hf] at hs ⊢
+    · obtain ⟨v, hv, hvi⟩ := decode4 a b c d
+      rw [hv]; dsimp only
+      generalize sdisp [a,b,c,d] = S at hvi hs ⊢
+      rw [hvi]; apply congrArg
+      split
+      · rename_i hc
+        simp only [Bool.and_eq_true, decide_eq_true_eq] at hc
+        have := hs hc.1; omega
+      · rfl
+
+/-- how an output instruction relates to its original: everything that is not the PC-relative field is kept — the
+    bytes before it (prefixes, opcode, ModRM) verbatim or, for a widened short branch, replaced by the near opcode that
+    `opExpand` lists for it — and the field has the same width or 4 bytes. -/
+def Shape (i : Ins) (pre' f' : Bytes) : Prop :=
+  (pre' = i.pre ∧ f'.length = i.pcrel) ∨
+  (i.pcrel = 1 ∧ i.pcrelOff = 1 ∧ opExpand (BitVec.setWidth 32 (i.pre.getD 0 0#8)) = some pre' ∧ f'.length = 4)
+
+/-- `EncodeAddress` as used by `fixIns`, in integers -/
+theorem encode_spec (i : Ins) (hw : WF i) (hp : i.pcrelOff ≠ 0) (add : BitVec 64) (r : Bytes)
+    (ha1 : -2^31 + 2^16 ≤ add.toInt) (ha2 : add.toInt < 2^31 - 2^16)
+    (hr1 : -2^31 + 8 ≤ sdisp i.field + add.toInt) (hr2 : sdisp i.field + add.toInt < 2^31)
+    (h : encode i (sdisp i.field) add = .ok r) :
+    ∃ pre' f', r = pre' ++ f' ∧ Shape i pre' f' ∧
+      sdisp f' + ((pre'.length + f'.length : Nat) : Int) = sdisp i.field + ((i.pcrelOff + i.pcrel : Nat) : Int) + add.toInt := by
+  have hl := field_length i hw hp
+  have hpl := pre_length i hw hp
+  unfold encode at h
+  rcases hw.width hp with h1 | h4
+  · rw [h1] at hl h
+    obtain ⟨b, hf⟩ := len1 _ hl
+    simp only [hf] at h hr1 hr2 ⊢
+    · have ⟨r1, r2⟩ := sdisp1_range b
+      have hv := ofInt_toInt (sdisp [b]) (by omega) (by omega)
+      by_cases hfit : -128 ≤ sdisp [b] + add.toInt ∧ sdisp [b] + add.toInt ≤ 127
+      · obtain ⟨x, hx, hxs⟩ := enc1_fit i.pre b (BitVec.ofInt 64 (sdisp [b])) add (by omega) (by omega) ha1 ha2 (by omega) (by omega)
+        rw [hx] at h; simp only [Except.ok.injEq] at h
+        refine ⟨i.pre, [x], h.symm, Or.inl ⟨rfl, by simp [h1]⟩, ?_⟩
+        rw [hxs, hv, hpl, h1]; simp; omega
+      · cases hx : opExpand (BitVec.setWidth 32 (i.pre.getD 0 0#8)) with
+        | none =>
+          rw [enc1_none i.pre b _ add (by omega) (by omega) ha1 ha2 (by omega) hx] at h
+          simp at h
+        | some near =>
+          have hoff := hw.short hp h1 (by rw [hx]; simp)
+          rw [hoff] at hpl
+          obtain ⟨op, hpre⟩ := len1 _ hpl
+          · rw [hpre] at hx h
+            simp only [List.getD_cons_zero] at hx
+            obtain ⟨f, hf', hfl, hfs⟩ := enc1_widen op b (BitVec.ofInt 64 (sdisp [b])) add near (by omega) (by omega) ha1 ha2 (by omega) hx
+            rw [hf'] at h; simp only [Except.ok.injEq] at h
+            refine ⟨near, f, h.symm, Or.inr ⟨h1, hoff, by rw [hpre]; exact hx, hfl⟩, ?_⟩
+            rw [hv] at hfs
+            rw [hoff, h1]
+            have : ((near.length + f.length : Nat) : Int) = ((near.length + 4 : Nat) : Int) := by rw [hfl]
+            rw [this]; omega
+  · rw [h4] at hl h
+    obtain ⟨a, b, c, d, hf⟩ := len4 _ hl
+    simp only [hf] at h hr1 hr2 ⊢
+    · have ⟨r1, r2⟩ := sdisp4_range [a,b,c,d] rfl
+      have hv := ofInt_toInt (sdisp [a,b,c,d]) (by omega) (by omega)
+      obtain ⟨f, hf', hfl, hfs⟩ := enc4 i.pre a b c d (BitVec.ofInt 64 (sdisp [a,b,c,d])) add (by omega) (by omega) (by omega) (by omega)
+        (by omega) (by omega)
+      rw [hf'] at h; simp only [Except.ok.injEq] at h
+      refine ⟨i.pre, f, h.symm, Or.inl ⟨rfl, by rw [hfl, h4]⟩, ?_⟩
+      rw [hfs, hv, hpl, hfl, h4]; simp; omega
 
 end C03L
